@@ -348,7 +348,8 @@ func (self *Compiler) compileMapBodyTextKey(p *ir.Program, vk reflect.Type) {
 }
 
 func (self *Compiler) compileMapBodyUtextKey(p *ir.Program, vk reflect.Type) {
-	if vk.Kind() != reflect.Ptr {
+	/* a nil pointer or a nil interface has no text, it is written as the empty key */
+	if vk.Kind() != reflect.Ptr && vk.Kind() != reflect.Interface {
 		addMarshalerOp(p, ir.OP_marshal_text, vk, vars.EncodingTextMarshalerType)
 	} else {
 		self.compileMapBodyUtextPtr(p, vk)
